@@ -24,6 +24,10 @@ Definition ekey_eq_dec : forall a b : ekey, {a = b} + {a <> b}.
 Proof. decide equality; try apply str_eq_dec; apply bool_dec. Defined.
 Definition entity_key_eq_dec : forall a b : entity_key, {a = b} + {a <> b}.
 Proof. decide equality; [apply ostr_eq_dec | decide equality; apply ekey_eq_dec]. Defined.
+Definition ts_rules_eq_dec : forall a b : ts_rules, {a = b} + {a <> b}.
+Proof. decide equality; try apply obool_eq_dec; apply oZ_eq_dec. Defined.
+Definition obj_rules_eq_dec : forall a b : obj_rules, {a = b} + {a <> b}.
+Proof. decide equality; apply oN_eq_dec. Defined.
 Definition olpay_eq_dec : forall a b : option lpay, {a = b} + {a <> b}.
 Proof. decide equality; apply lpay_eq_dec. Defined.
 Definition fty_eq_dec : forall a b : fty, {a = b} + {a <> b}.
@@ -32,7 +36,8 @@ Proof.
     try apply ostr_eq_dec; try (apply list_eq_dec; apply str_eq_dec);
     try (decide equality; first [apply int_rules_eq_dec | apply str_rules_eq_dec | apply len_rules_eq_dec
                                 | apply enum_rules_eq_dec | apply kfmt_eq_dec | apply entity_key_eq_dec
-                                | apply txt_rules_eq_dec | apply obool_eq_dec]).
+                                | apply txt_rules_eq_dec | apply obool_eq_dec
+                                | apply ts_rules_eq_dec | apply obj_rules_eq_dec]).
 Defined.
 Definition map_rules_eq_dec : forall a b : map_rules, {a = b} + {a <> b}.
 Proof. decide equality; apply oN_eq_dec. Defined.
@@ -59,12 +64,19 @@ Fixpoint list_eqb2 {A B} (f : A -> B -> bool) (a : list A) (b : list B) : bool :
 (* an object: environment, declared properties, the annotations emitted for
    them, and what the reflector read back (None: a reflected property the
    declaration language cannot express) *)
-Definition value3_eq_dec : forall a b : str * Z * str, {a = b} + {a <> b}.
-Proof. decide equality; [apply str_eq_dec | decide equality; [apply Z.eq_dec | apply str_eq_dec]]. Defined.
+Definition oinfo_eq_dec : forall a b : oinfo, {a = b} + {a <> b}.
+Proof. apply list_eq_dec. decide equality; apply str_eq_dec. Defined.
+Definition infofield_eq_dec : forall a b : infofield, {a = b} + {a <> b}.
+Proof. decide equality; [apply str_eq_dec | decide equality; apply str_eq_dec]. Defined.
+Definition value3_eq_dec : forall a b : str * Z * str * oinfo, {a = b} + {a <> b}.
+Proof.
+  decide equality; [apply oinfo_eq_dec|].
+  decide equality; [apply str_eq_dec | decide equality; [apply Z.eq_dec | apply str_eq_dec]].
+Defined.
 Definition enum_out_eq_dec : forall a b : enum_out, {a = b} + {a <> b}.
-Proof. decide equality; [apply list_eq_dec; apply value3_eq_dec | apply str_eq_dec]. Defined.
+Proof. decide equality; [apply list_eq_dec; apply infofield_eq_dec | apply list_eq_dec; apply value3_eq_dec | apply str_eq_dec]. Defined.
 Definition renum_eq_dec : forall a b : renum, {a = b} + {a <> b}.
-Proof. decide equality; try apply str_eq_dec; apply list_eq_dec; apply value3_eq_dec. Defined.
+Proof. decide equality; try apply str_eq_dec; apply list_eq_dec; first [apply value3_eq_dec | apply infofield_eq_dec]. Defined.
 
 Inductive c04case :=
 | C04Case (env : enum_env) (ds : list prop) (obs : list fout) (refl : outcome (list (option rprop)))
